@@ -640,6 +640,10 @@ def run(tier):
         for cfg in trace_cfgs:
             for sh in shf(tier):
                 items.append(('P', cfg, n, sh))
+    only = os.environ.get('C14_ONLY')        # development aid: restrict to some routines (evidence then says so)
+    if only:
+        items = [it for it in items if it[2] in only.split(',')]
+        chk.cap('restricted by C14_ONLY=' + only)
     res = vf.pmap(_dispatch, items, case_timeout=600)
     ncalls = nsteps = 0
     groups = 0
